@@ -91,6 +91,19 @@ def stored_fields(ctx, only=None):
                       'field %s of the constructed value is %s, expected the unadjusted %s' % (f, got.get(f), want), ctx.where(body))
 
 
+def domain_of(ctx, suffixes, rule='R-C17-1'):
+    """the domain tables of the named functions only (a clause shared with the properties whose honest path calls them: a function that
+    refuses part of its documented domain refuses honest inputs of its callers)"""
+    n = 0
+    for suffix in suffixes:
+        tab = TABLE.get(suffix)
+        body = ctx.fn(suffix, rule) if tab is not None else None
+        if body is None:
+            continue
+        n += len(compare_table(ctx, rule, suffix, body, tab['expected'], tab['extra']))
+    return n
+
+
 def run(ctx):
     rep = ctx.rep
     n_guards = 0
